@@ -17,10 +17,10 @@ import time
 sys.path.insert(0, os.path.dirname(os.path.dirname(os.path.abspath(__file__))))
 import vlib
 from vlib import VI, VB, VS, VL
+import regen_c05
 
 PID = "C05"
-THEOREMS = []
-THEOREMS_ALL = ["cmd_roundtrip", "cmd_roundtrip_fuses_refuted", "kdf_spec", "stream_ends_everywhere", "chain_authenticates",
+THEOREMS = ["cmd_roundtrip", "cmd_roundtrip_fuses_refuted", "kdf_spec", "stream_ends_everywhere", "chain_authenticates",
             "signature_binds_whole_file", "coverage31", "rom31_build_first", "rom31_build_history"]
 SCRATCH = os.path.join(vlib.WORK, PID, "run")       # proposed_fix_*.diff live next to it and survive
 KEYDIR = os.path.join(SCRATCH, "keys")
@@ -285,16 +285,113 @@ def cmds_for_length(rng, target):
     return cmds
 
 
+FAMILY_CMDS = {
+    "lpc55s36": ["erase", "load", "execute", "programFuses", "programIFR", "loadCMAC", "copy", "loadHashLocking", "loadKeyBlob",
+                 "configureMemory", "fillMemory", "checkFwVersion"],
+    "mcxn947": ["erase", "load", "execute", "programFuses", "programIFR", "loadCMAC", "copy", "loadHashLocking", "loadKeyBlob",
+                "configureMemory", "fillMemory", "checkFwVersion"],
+    "kw45b41z8": ["erase", "load", "execute", "programFuses", "programIFR", "loadCMAC", "loadHashLocking", "fillMemory",
+                  "checkFwVersion"]}
+KEYWRAP = {"lpc55s36": {"NXP_CUST_KEK_INT_SK": 16, "NXP_CUST_KEK_EXT_SK": 17},
+           "mcxn947": {"NXP_CUST_KEK_INT_SK": 18, "NXP_CUST_KEK_EXT_SK": 19}}
+COUNTERS = ["none", "nonsecure", "secure", "radio", "snt", "bootloader"]
+
+
+def gen_config_case(rng, i):
+    """a configuration for `nxpimage sb31 export` together with the commands / header fields it is documented to mean"""
+    family = ["lpc55s36", "mcxn947", "kw45b41z8"][i % 3]
+    curve = 256 if (i // 3) % 2 == 0 else 384
+    use_isk = i % 4 == 1
+    n_roots = rng.randrange(1, 5)
+    used = rng.randrange(n_roots)
+    files, ccfg, want = {}, [], []
+    num = lambda v: rng.choice([v, hex(v), str(v), hex(v).upper().replace("0X", "0x")])
+
+    def datafile(n):
+        name = f"d{len(files)}.bin"
+        files[name] = rnd_bytes(rng, n).hex()
+        return name
+
+    for _ in range(rng.randrange(1, 9)):
+        kind = rng.choice(FAMILY_CMDS[family])
+        a, b, m = rnd_u32(rng), rnd_u32(rng), rnd_u32(rng)
+        memcfg = rng.random() < 0.5
+        if kind == "erase":
+            ccfg.append({kind: dict({"address": num(a), "size": num(b)}, **({"memoryId": num(m)} if memcfg else {}))})
+            want.append([1, a, b, m if memcfg else 0])
+        elif kind in ("load", "loadCMAC", "loadHashLocking"):
+            tag = {"load": 2, "loadCMAC": 7, "loadHashLocking": 9}[kind]
+            if kind == "load" and rng.random() < 0.4:
+                words = [rng.getrandbits(32) for _ in range(rng.randrange(1, 6))]
+                ccfg.append({kind: dict({"address": num(a), "values": ",".join(str(num(w)) for w in words)},
+                                        **({"memoryId": num(m)} if memcfg else {}))})
+                data = struct.pack(f"<{len(words)}L", *words).hex()
+            else:
+                name = datafile(rng.choice([1, 7, 16, 100, 300]))
+                ccfg.append({kind: dict({"address": num(a), "file": "@f/" + name}, **({"memoryId": num(m)} if memcfg else {}))})
+                data = files[name]
+            want.append([tag, a, m if memcfg else 0, data])
+        elif kind == "execute":
+            ccfg.append({kind: {"address": num(a)}})
+            want.append([3, a])
+        elif kind == "programFuses":
+            words = [rng.getrandbits(32) for _ in range(rng.randrange(1, 5))]
+            ccfg.append({kind: {"address": num(a), "values": ",".join(str(num(w)) for w in words)}})
+            want.append([5, a, struct.pack(f"<{len(words)}L", *words).hex()])
+        elif kind == "programIFR":
+            name = datafile(rng.choice([4, 16, 33]))
+            ccfg.append({kind: {"address": num(a), "file": "@f/" + name}})
+            want.append([6, a, files[name]])
+        elif kind == "copy":
+            d_, mf, mt = rnd_u32(rng), rnd_u32(rng), rnd_u32(rng)
+            ccfg.append({kind: {"addressFrom": num(a), "size": num(b), "addressTo": num(d_), "memoryIdFrom": num(mf), "memoryIdTo": num(mt)}})
+            want.append([8, a, b, d_, mf, mt])
+        elif kind == "loadKeyBlob":
+            name = datafile(rng.choice([16, 48, 50]))
+            wk = rng.choice(sorted(KEYWRAP[family]))
+            off = rng.getrandbits(16)
+            ccfg.append({kind: {"offset": num(off), "wrappingKeyId": wk, "file": "@f/" + name}})
+            want.append([10, off, KEYWRAP[family][wk], files[name]])
+        elif kind == "configureMemory":
+            ccfg.append({kind: {"configAddress": num(a), "memoryId": num(m)}})
+            want.append([11, a, m])
+        elif kind == "fillMemory":
+            ccfg.append({kind: {"address": num(a), "size": num(b), "pattern": num(m)}})
+            want.append([12, a, b, m])
+        elif kind == "checkFwVersion":
+            cid = rng.randrange(1, 6)
+            ccfg.append({kind: {"value": num(a), "counterId": COUNTERS[cid]}})
+            want.append([13, a, cid])
+    enc = 0 if i % 5 == 4 else 1
+    pck = rnd_bytes(rng, rng.choice([16, 32]))
+    fw, flags, ts, rights = rnd_u32(rng), rnd_u32(rng), rng.getrandbits(rng.choice([8, 31, 60])) + 1, rng.randrange(4)
+    descr = rng.choice(["", "cfg", "sixteen chars ok!", "more than sixteen characters"])
+    cfg = {"family": family, "firmwareVersion": num(fw), "signPrivateKey": f"@k/isk{curve}.pem" if use_isk else f"@k/root{curve}_{used}.pem",
+           "containerKeyBlobEncryptionKey": pck.hex(), "kdkAccessRights": rights, "containerConfigurationWord": hex(flags),
+           "timestamp": hex(ts), "isNxpContainer": bool(i % 7 == 3), "commands": ccfg}
+    if descr:
+        cfg["description"] = descr
+    if not enc:
+        cfg["isEncrypted"] = False
+    cert_cfg = {f"rootCertificate{k}File": f"@k/root{curve}_{k}.pub.pem" for k in range(n_roots)}
+    cert_cfg.update({"mainRootCertId": used, "useIsk": use_isk, "mainRootCertPrivateKeyFile": f"@k/root{curve}_{used}.pem"})
+    if use_isk:
+        cert_cfg.update({"signingCertificateFile": f"@k/isk{curve}.pub.pem", "signingCertificateConstraint": hex(rng.getrandbits(8))})
+    return {"op": "config", "cfg": cfg, "cert_cfg": cert_cfg, "files": files,
+            "want": {"cmds": want, "fw": fw, "flags": flags, "ts": ts, "rights": rights, "enc": enc, "pck": pck.hex(),
+                     "nxp": int(i % 7 == 3), "descr": descr, "curve": curve, "signer": f"isk{curve}" if use_isk else f"root{curve}_{used}"}}
+
+
 def gen_cases(tier, rng):
     thorough = tier == "thorough"
     S = {}
     # --- (a) every command type: export -> parse_command
     rt = []
     for tag in TAGS:
-        for n in list(range(0, 36)) + [47, 48, 49, 255, 256, 257, 600]:
+        for n in (list(range(0, 36)) + [47, 48, 49, 255, 256, 257, 600] if thorough else list(range(0, 18)) + [31, 32, 33, 255, 256, 600]):
             if tag in DATA_POS:
                 rt.append(gen_cmd(rng, tag, dlen=n, fuses_aligned=False))
-        for _ in range(40 if thorough else 10):
+        for _ in range(40 if thorough else 6):
             rt.append(gen_cmd(rng, tag, fuses_aligned=False))
     # field boundaries: every 32-bit field at 0 / max, out of range values
     for tag in TAGS:
@@ -307,7 +404,7 @@ def gen_cases(tier, rng):
                     c = list(base)
                     c[i] = v
                     rt.append(c)
-    S["commands: export then parse_command (14 types, data lengths 0..35 and larger, field boundaries)"] = \
+    S["commands: export then parse_command (14 types, data lengths over every residue modulo 16, field boundaries)"] = \
         [{"op": "roundtrip", "cmd": c} for c in rt]
     # --- (b) parse_command on damaged / truncated commands (model = implementation, error classes included)
     pc = []
@@ -340,11 +437,11 @@ def gen_cases(tier, rng):
     S["KeyDerivator: PCK 128/192/256, key length 128/256, rights 0..3"] = kd
     # --- (e) containers and export histories
     co = []
-    ncont = 260 if thorough else 64
+    ncont = 480 if thorough else 48
     combos = [(curve, enc, isk, pl) for curve in (256, 384) for enc in (1, 0) for isk in (0, 1) for pl in (16, 32)]
     for i in range(ncont):
         curve, enc, isk, pl = combos[i % len(combos)]
-        nblocks = 1 + (i // len(combos)) % 6 if i % 5 else rng.choice([1, 2, 7, 9])
+        nblocks = 1 + (i // len(combos) + i) % (6 if thorough else 4) if i % 8 else rng.choice([1, 2, 6, 9])
         r = (i * 7 + i // 16) % 16
         target = (nblocks - 1) * 256 + (r * 16 if r else 256)
         descr = rng.choice([None, "", "a", "hello", "exactly16chars!!", "longer than sixteen characters", "x\x00y", "~" * 15])
@@ -367,6 +464,8 @@ def gen_cases(tier, rng):
            dict(co[0], pck=None), dict(co[3], pck=None)]
     S["SecureBinary31: construct, add commands, export() one to three times on one object"] = co
     S["SecureBinary31: invalid configurations (error class)"] = bad
+    S["nxpimage sb31 export: configuration files (12 command kinds, numbers as int / hex / decimal strings)"] = \
+        [gen_config_case(rng, i) for i in range(120 if thorough else 15)]
     # the recorded finding: fuse data that is not a whole number of words
     S["SecureBinary31: programFuses data not a multiple of 4 bytes"] = [dict(co[0], cmds=[[5, 0x100, "0102030405"]], n_exports=1)]
     return S
@@ -441,6 +540,12 @@ def run(tier):
 
 def _run(rep, rng, tier):
     pubs = make_keys()
+    # (T1) constants of the source, regenerated on every run; Proofs/Sb31Proofs.v compares them with the model
+    try:
+        regen_c05.regen()
+        rep.obligation("translate:spsdk/sbfile/sb31/*.py literal tables->Gen/GenSb31.v", True)
+    except Exception as ex:  # noqa
+        rep.obligation("translate:spsdk/sbfile/sb31/*.py literal tables->Gen/GenSb31.v", False, repr(ex))
     # (P) proofs
     model_ok, mout = vlib.coq_make(["Model/Sb31Model.vo"])
     vlib.check_theorems(rep, PID, THEOREMS, ["Proofs/Sb31Proofs.vo"])
@@ -463,13 +568,14 @@ def _run(rep, rng, tier):
             c["op"] = "parse_cmd"
             c["data"] = mutate(bytes.fromhex(r), c.pop("mut")).hex() if not is_err(r) else ""
     t_impl = time.time()
-    impl = vlib.run_impl("c05_impl.py", {"keys": KEYDIR, "cases": flat}, timeout=3000)["results"]
+    impl = vlib.run_impl("c05_impl.py", {"keys": KEYDIR, "scratch": SCRATCH, "cases": [{k: v for k, v in c.items() if k != "want"} for c in flat]},
+                         timeout=3000)["results"]
     vlib.log(f"  implementation: {len(flat)} cases in {time.time() - t_impl:.1f} s")
 
     exprs, expect, meta = [], [], []          # model expressions, implementation observables, (case index, what)
 
     def fail(sig, what, case, extra=None):
-        rp = {"kind": "impl-oracle", "case": case}
+        rp = {"kind": "impl-oracle", "oracle": sig, "case": case}
         if extra:
             rp.update(extra)
         rep.failing(sig, what, rp)
@@ -482,6 +588,8 @@ def _run(rep, rng, tier):
             tname = TAGS[cmd[0]]
             exp_hex, parsed = r
             valid = cmd_valid(cmd)
+            if is_err(exp_hex) and valid and cmd[0] == 5 and (len(cmd[2]) // 2) % 4 and exp_hex.startswith("!e1"):
+                continue      # finding C05-F1 repaired upstream: fuse data that is not whole words is refused (the specified outcome)
             if is_err(exp_hex):
                 if valid:
                     fail(f"export_cmd:{tname}:rejects-valid", f"{tname}{cmd[1:]} cannot be exported: {exp_hex}", c)
@@ -554,6 +662,36 @@ def _run(rep, rng, tier):
                 nontrivial[name].add(json.dumps(c))
         elif op == "container":
             check_container(rep, c, r, idx, name, pubs, exprs, expect, meta, nontrivial, fail)
+        elif op == "config":
+            w = c["want"]
+            if is_err(r):
+                fail("config:export-fails", f"nxpimage sb31 export failed on a valid configuration: {r}", c)
+                continue
+            f = bytes.fromhex(r)
+            pck = bytes.fromhex(w["pck"])
+            try:
+                d = spec_rom31(f, bool(w["enc"]), pck, w["rights"], pubs[w["signer"]])
+            except Reject as ex:
+                fail("config:loader-rejects", f"the file written by nxpimage sb31 export is not accepted by the loader: {ex}", c, {"file": r})
+                continue
+            problems = []
+            if d["cmds"] != w["cmds"]:
+                problems.append("commands")
+            if (d["fw"], d["ts"], d["flags"], d["itype"], d["descr"]) != (w["fw"], w["ts"], w["flags"], 7 if w["nxp"] else 6, descr16(w["descr"])):
+                problems.append("header-fields")
+            if problems:
+                fail("config:decoded-" + "+".join(problems), f"the loader decodes different {', '.join(problems)} than the configuration says: "
+                     f"{d['cmds'][:4]} / fw {d['fw']} ts {d['ts']} flags {d['flags']}", c, {"file": r})
+            else:
+                nontrivial[name].add(json.dumps(c["cfg"], sort_keys=True))
+            # the Coq loader on the same bytes
+            exprs.append(f"run_case 5 [VInt {w['enc']}%Z; {vlib.coq_lit(VB(pck))}; {vlib.coq_lit(VI(w['rights']))}; {vlib.coq_lit(VB(f))}]")
+            hl = 32 if w["curve"] == 256 else 48
+            stream_len = 16 + sum(export_len(x) for x in w["cmds"])
+            expect.append(VL([VL([VI(w["fw"]), VI(w["ts"]), VI(w["flags"]), VI(7 if w["nxp"] else 6), VB(descr16(w["descr"])),
+                                  VI((stream_len + 255) // 256), VI(d["tl"]), VL([cmd_value(x) for x in w["cmds"]]), VI(d["tl"] - 2 * hl),
+                                  VB(d["cert"]), VB(d["sig"])])]))
+            meta.append((idx, "coq-loader-on-nxpimage-output"))
     # (T2) model on the same cases
     ndis, dis_ops = 0, {}
     if model_ok:
@@ -571,6 +709,8 @@ def _run(rep, rng, tier):
             for e_, want, got, (idx, what) in zip(exprs, expect, model_res, meta):
                 if want is None:
                     continue
+                if (what == "parse" and want == ("e", 1) and got[0] == "l" and got[1][0] == ("i", 5) and len(got[1][2][1]) % 4):
+                    continue      # class of finding C05-F1 after an upstream repair: fuse data of a broken length is refused
                 if want != got:
                     ndis += 1
                     dis_ops[what] = dis_ops.get(what, 0) + 1
@@ -593,12 +733,13 @@ def _run(rep, rng, tier):
         trusted_base=["Coq 8.16.1 kernel + vm_compute", "hand model Model/Sb31Model.v tied by correspondence (T2)",
                       "Crypto/{Sha2,Aes,Modes,Cmac}.v as the meaning of SHA-2/AES/CBC/CMAC (validated on standard vectors and, "
                       "through T2, bit-for-bit against OpenSSL via SPSDK)",
-                      "cipher law (D k (E k b) = b and 16-byte well-formed output on 16-byte blocks) is an explicit premise of the "
-                      "rom31_* theorems", "certificate block v2.1 and ECDSA are obligations: opaque bytes in the model, checked "
+                      "AES decrypt-after-encrypt and CBC inversion are proved in Proofs/CryptoProofs.v (no cipher premise remains)",
+                      "tools/regen_c05.py (ast extraction of literal tables into Gen/GenSb31.v)", "certificate block v2.1 and ECDSA are obligations: opaque bytes in the model, checked "
                       "by the Python oracle with `cryptography` directly", "CPython, struct, hashlib, cryptography/OpenSSL for the oracles"],
-        checker_cmd="coqc -R . V Props/C05/*.v (after make Proofs/Sb31Proofs.vo)",
+        checker_cmd="coqc -R . V Props/C05/*.v (after make Proofs/Sb31Proofs.vo; thorough: coqchk -o over the closure)",
         assumptions=["timestamp > 0 (0 / None means 'now' in SPSDK)", "command data and keys are byte strings",
-                     "export(cert_block=...) override is not used", "the signature provider returns 2*hash_len bytes"])
+                     "export(cert_block=...) override is not used", "the signature provider returns 2*hash_len bytes",
+                     "cmd_roundtrip / rom31_build_* require programFuses data of whole 32-bit words (finding C05-F1 otherwise)"])
 
 
 def check_container(rep, c, r, idx, name, pubs, exprs, expect, meta, nontrivial, fail):
@@ -619,6 +760,8 @@ def check_container(rep, c, r, idx, name, pubs, exprs, expect, meta, nontrivial,
             vlib.coq_lit(VL([VB(s) for s in sigs]))]) + "]")
 
     if "construct" in r:
+        if valid and any(x[0] == 5 and (len(x[2]) // 2) % 4 for x in c["cmds"]) and r["construct"].startswith("!e1"):
+            return            # finding C05-F1 repaired upstream: such a command is refused when it is created
         if valid:
             fail("container:construct:rejects-valid", f"constructor failed on a valid configuration: {r['construct']}", c)
         if c["pck"] is not None:      # pck=None is a Python-level distinction the model does not carry
@@ -680,8 +823,8 @@ def check_container(rep, c, r, idx, name, pubs, exprs, expect, meta, nontrivial,
     exprs.append(model_expr(cert, r["cert_expected"], sigs))
     expect.append(VL([VB(f) for f in files]))
     meta.append((idx, "container-bytes"))
-    # the Coq loader on SPSDK's bytes (first and last export)
-    for f, sg in {(files[0], sigs[0]), (files[-1], sigs[-1])}:
+    # the Coq loader on SPSDK's bytes (the last export of the object)
+    for f, sg in [(files[-1], sigs[-1])]:
         pck = bytes.fromhex(c["pck"]) if c["pck"] else b""
         exprs.append(f"run_case 5 [VInt {c['enc']}%Z; {vlib.coq_lit(VB(pck))}; {vlib.coq_lit(VI(c['rights']))}; {vlib.coq_lit(VB(f))}]")
         stream_len = 16 + sum(export_len(x) for x in want_cmds)
